@@ -201,6 +201,12 @@ def run(ctx):
     from ..rules import r_index_array_dtype
     r_index_array_dtype(ctx, pt, "sys")
 
+    convs = [c_ for c_, cal_ in calls_from(m, pt, "expr_as_np_array.expr_as_np_array")]
+    if convs:
+        extra = [c_ for c_ in convs if len(c_.args) + len(c_.keywords) != 1]
+        ctx.ob("R-THREAD", pt, "the Variable is converted entry by entry with no structural assumption", not extra,
+               "expr_as_np_array(variable)" if not extra else
+               f"`{unparse(extra[0])[:60]}` promises a Hermitian / symmetric variable to the converter: a general Variable is unpacked with mirrored entries", extra[0] if extra else None)
     # ---- the Variable path goes through the same two conversion helpers as partial_trace's --------------
     from .C02 import _helpers
     _helpers(ctx)
